@@ -81,9 +81,16 @@ FLOORS = {
                            'dump:str': 500, 'dump:fd_b': 500, 'dump:fd_b_enc': 500, 'dump:fd_t': 500,
                            'doc:paragraphs>=2': 1000}},
 }
-FLOORS['thorough'] = {'nontrivial': 90000,
-                      'monitors': dict((k, v * 45) for k, v in FLOORS['quick']['monitors'].items()),
-                      'counters': dict((k, v * 45) for k, v in FLOORS['quick']['counters'].items())}
+FLOORS['thorough'] = {
+    'nontrivial': 95000,
+    'monitors': {'M': 7500000, 'M.armour': 4100000, 'M.comments': 3800000, 'M.lead': 3800000},
+    'counters': {'feat:first-trailing-blank': 450000, 'feat:first-starts-colon': 74000, 'feat:first-starts-hash': 67000,
+                 'feat:cont-starts-hash': 190000, 'feat:cont-trailing-blank': 670000, 'feat:cont-keyvalue-shaped': 165000,
+                 'feat:cont-marker-lookalike': 50000, 'feat:nonascii': 365000, 'feat:multi-line-value': 435000,
+                 'feat:marker-trailing-blank-or-cr': 1000000,
+                 'api:Dsc': 1000000, 'api:Changes': 1000000, 'api:Deb822': 2000000, 'api:iter_paragraphs': 3400000,
+                 'dump:str': 25000, 'dump:fd_b': 25000, 'dump:fd_b_enc': 25000, 'dump:fd_t': 25000,
+                 'doc:paragraphs>=2': 57000}}
 
 CONTAINERS = ('str', 'bytes', 'lines_nl', 'lines_nonl', 'textio', 'bytesio')
 DUMP_MODES = ('str', 'fd_b', 'fd_b_enc', 'fd_t')
@@ -575,7 +582,7 @@ def run_case(ctx, case):
 
 
 LEVEL_TEXT = ('Runtime monitoring of the live Deb822 / iter_paragraphs / Dsc / Changes code: seeded model documents '
-              '(2.4k quick / 150k thorough random + an enumerated hostile-first-line x hostile-continuation grid) are built '
+              '(3.6k quick / 200k thorough random + an enumerated hostile-first-line x hostile-continuation grid) are built '
               'through __setitem__, dumped by the library (str, binary fd with/without explicit encoding, text fd) and re-read '
               'through every input-form class (6 containers x plain/clearsign armour x comments x leading blank lines x '
               'API); every re-read is compared with the model document itself.  Held-on-observed: reach is the workload; the '
